@@ -610,7 +610,7 @@ pub fn run(ctx: &Ctx) -> Report {
                 report.machinery_errors.push(e);
                 return report;
             }
-            if let Err(e) = run_sched_case(ctx, &mut u, &sc, 0, &mut report, Some(schedule)) {
+            if let Err(e) = run_sched_case(ctx, &mut u, &sc, 0, &mut report, Some(schedule), None, None) {
                 report.machinery_errors.push(e);
             }
             report.outcomes.insert(0);
@@ -663,7 +663,7 @@ pub fn run(ctx: &Ctx) -> Report {
         }
     }
     if report.machinery_errors.is_empty() && report.cap_hit.is_none() && std::env::var("VERIF_C01_ONLY").map(|v| v != "A" && v != "D").unwrap_or(true) {
-        run_sched(ctx, &mut u, &mut report);
+        run_sched(ctx, &mut u, &mut report, None, None);
     }
     report.count("forge_audits", u.audited);
     drop(u);
@@ -694,7 +694,7 @@ fn sched_cases(tier: Tier) -> Vec<SchedCase> {
     let mk = |pv: &[usize], bad: Option<(usize, Invalid)>, perm: &[usize], dup: u8, bound: usize| SchedCase { case: Case { pv: pv.to_vec(), bad, perm: perm.to_vec(), dup }, bound };
     if !tier.is_thorough() {
         // quick: the named scenarios at preemption bound 1
-        out.push(mk(&[0, 1], None, &[0, 1], 0, 1)); // S1 chain, pipeline overlap
+        out.push(mk(&[0, 1], None, &[0, 1], 0, 2)); // S1 chain, pipeline overlap (two preemptions)
         out.push(mk(&[0, 1], None, &[1, 0], 0, 1)); // S2 child before parent
         out.push(mk(&[0, 1], Some((1, Invalid::Dao)), &[0, 1], 0, 1)); // S4 invalid parent, then child
         out.push(mk(&[0, 1], Some((1, Invalid::Dao)), &[1, 0], 0, 1)); // S4' child first
@@ -746,10 +746,13 @@ struct SchedOutcome {
     tip_idx: i64,
     saw_orphan: bool,
     tip_changes: usize,
+    cuts_judged: u64,
 }
 
 /// One controlled execution of `seq` under the schedule `prefix` (then the default policy).
-fn sched_exec(ctx: &Ctx, cons: &ckb_chain_spec::consensus::Consensus, m: &Materialised, pv: &[usize], seq: &[usize], prefix: &[usize]) -> Result<crate::sched::Execution<SchedOutcome>, String> {
+type CutMonitor<'a> = Option<&'a dyn Fn(&Node) -> Vec<(String, String)>>;
+
+fn sched_exec(ctx: &Ctx, cons: &ckb_chain_spec::consensus::Consensus, m: &Materialised, pv: &[usize], seq: &[usize], prefix: &[usize], monitor: CutMonitor) -> Result<crate::sched::Execution<SchedOutcome>, String> {
     use crate::sched::*;
     let n = m.blocks.len();
     let genesis_hash = cons.genesis_hash();
@@ -757,6 +760,16 @@ fn sched_exec(ctx: &Ctx, cons: &ckb_chain_spec::consensus::Consensus, m: &Materi
     let _ = std::fs::remove_dir_all(&dir);
     set_time(time_for_height(12));
     let t0 = std::time::Instant::now();
+    // every execution starts from a copy of one freshly initialised (genesis only) and cleanly
+    // closed node directory: re-opening it costs about half of an initialisation
+    let tpl = ctx.scratch.join("run-s-template");
+    if !tpl.join("db").is_dir() {
+        let _ = std::fs::remove_dir_all(&tpl);
+        let n0 = Node::boot(&tpl, &NodeOpts::new(cons.clone()))?;
+        n0.wait_startup()?;
+        n0.shutdown();
+    }
+    copy_dir(&tpl, &dir)?;
     let node = Node::boot(&dir, &NodeOpts::new(cons.clone()))?;
     let t1 = t0.elapsed();
     node.wait_startup()?;
@@ -827,6 +840,13 @@ fn sched_exec(ctx: &Ctx, cons: &ckb_chain_spec::consensus::Consensus, m: &Materi
                 if node.chain().orphan_blocks_len() > 0 {
                     out.saw_orphan = true;
                 }
+                if let Some(mon) = monitor {
+                    for (k, what) in mon(&node) {
+                        let at = enabled.iter().map(|e| format!("{} at {}", crate::sched::ROLE_NAMES[e.role], e.site)).collect::<Vec<_>>().join(", ");
+                        out.violations.push((format!("cut/{k}"), format!("{what} [threads parked: {at}]")));
+                    }
+                    out.cuts_judged += 1;
+                }
                 let i = points.len();
                 let chosen = if i < prefix.len() {
                     if enabled.iter().any(|e| e.role == prefix[i]) {
@@ -875,6 +895,12 @@ fn sched_exec(ctx: &Ctx, cons: &ckb_chain_spec::consensus::Consensus, m: &Materi
         return Ok(Execution { points, outcome: out, diverged: None });
     }
     // ---- final judgement (every block delivered, every thread idle, every queue empty)
+    if let Some(mon) = monitor {
+        for (k, what) in mon(&node) {
+            out.violations.push((format!("cut/{k}"), format!("{what} [at quiescence]")));
+        }
+        out.cuts_judged += 1;
+    }
     let snap = node.shared.snapshot();
     let tip = snap.tip_hash();
     let tip_td = snap.total_difficulty().clone();
@@ -990,7 +1016,7 @@ fn seq_of(case: &Case) -> Vec<usize> {
     seq
 }
 
-fn run_sched_case(ctx: &Ctx, u: &mut TreeUniverse, sc: &SchedCase, case_idx: u64, report: &mut Report, only_schedule: Option<Vec<usize>>) -> Result<(), String> {
+fn run_sched_case(ctx: &Ctx, u: &mut TreeUniverse, sc: &SchedCase, case_idx: u64, report: &mut Report, only_schedule: Option<Vec<usize>>, monitor: CutMonitor, only_prefix: Option<&str>) -> Result<(), String> {
     use crate::sched::*;
     let root_is_mine = ctx.mine(case_idx);
     let m = materialise(u, &sc.case)?;
@@ -999,19 +1025,19 @@ fn run_sched_case(ctx: &Ctx, u: &mut TreeUniverse, sc: &SchedCase, case_idx: u64
     let pv = sc.case.pv.clone();
     if let Some(schedule) = only_schedule {
         // replay: the recorded schedule twice, observations must be identical
-        let a = sched_exec(ctx, &cons, &m, &pv, &seq, &schedule)?;
-        let b = sched_exec(ctx, &cons, &m, &pv, &seq, &schedule)?;
+        let a = sched_exec(ctx, &cons, &m, &pv, &seq, &schedule, monitor)?;
+        let b = sched_exec(ctx, &cons, &m, &pv, &seq, &schedule, monitor)?;
         if a.outcome.sites_fp != b.outcome.sites_fp || a.outcome.end_fp != b.outcome.end_fp {
             return Err("replay of the recorded schedule is not deterministic".into());
         }
         report.traces += 2;
         report.evaluations += 1;
-        for (k, what) in &a.outcome.violations {
+        for (k, what) in a.outcome.violations.iter().filter(|(k, _)| only_prefix.map(|p| k.starts_with(p)).unwrap_or(true)) {
             report.violation(format!("S/{k}"), format!("{what} (replayed twice, identical observations)"), json!({"family": "S", "case": sc, "schedule": schedule}));
         }
         return Ok(());
     }
-    let mut run = |prefix: &[usize]| sched_exec(ctx, &cons, &m, &pv, &seq, prefix);
+    let mut run = |prefix: &[usize]| sched_exec(ctx, &cons, &m, &pv, &seq, prefix, monitor);
     let mut local = Report::new();
     let case_fp = fp(&(&sc.case, sc.bound));
     let mut ends: BTreeSet<u64> = BTreeSet::new();
@@ -1022,6 +1048,7 @@ fn run_sched_case(ctx: &Ctx, u: &mut TreeUniverse, sc: &SchedCase, case_idx: u64
             return true;
         }
         local.traces += 1;
+        local.count("family_S_cuts_judged_by_the_monitor", x.outcome.cuts_judged);
         local.transitions += x.points.len() as u64;
         local.states.insert(fp(&(case_fp, x.outcome.sites_fp)));
         local.outcomes.insert(x.outcome.end_fp);
@@ -1030,7 +1057,7 @@ fn run_sched_case(ctx: &Ctx, u: &mut TreeUniverse, sc: &SchedCase, case_idx: u64
             local.nontrivial.insert(fp(&(case_fp, x.outcome.sites_fp)));
         }
         let schedule: Vec<usize> = x.points.iter().map(|p| p.chosen).collect();
-        for (k, what) in &x.outcome.violations {
+        for (k, what) in x.outcome.violations.iter().filter(|(k, _)| only_prefix.map(|p| k.starts_with(p)).unwrap_or(true)) {
             local.violation(format!("S/{k}"), format!("{what} (case {:?}, schedule of {} grants)", sc.case, schedule.len()), json!({"family": "S", "case": sc, "schedule": schedule}));
         }
         true
@@ -1050,7 +1077,7 @@ fn run_sched_case(ctx: &Ctx, u: &mut TreeUniverse, sc: &SchedCase, case_idx: u64
     Ok(())
 }
 
-fn run_sched(ctx: &Ctx, u: &mut TreeUniverse, report: &mut Report) {
+pub fn run_sched(ctx: &Ctx, u: &mut TreeUniverse, report: &mut Report, monitor: CutMonitor, only_prefix: Option<&str>) {
     let all = sched_cases(ctx.tier);
     let t_s = std::time::Instant::now();
     for (idx, sc) in all.iter().enumerate() {
@@ -1058,7 +1085,7 @@ fn run_sched(ctx: &Ctx, u: &mut TreeUniverse, report: &mut Report) {
             report.cap_hit = Some(format!("wall budget reached in family S at case {idx} of {}", all.len()));
             return;
         }
-        if let Err(e) = run_sched_case(ctx, u, sc, idx as u64, report, None) {
+        if let Err(e) = run_sched_case(ctx, u, sc, idx as u64, report, None, monitor, only_prefix) {
             report.machinery_errors.push(format!("family S case #{idx} {sc:?}: {e}"));
             return;
         }
@@ -1160,4 +1187,38 @@ fn run_family_m(ctx: &Ctx, report: &mut Report, only: Option<Vec<usize>>) {
         }
         report.count("family_M_runs", 1);
     }
+}
+
+/// Family S on behalf of C02: the same schedules, judged by a monitor that examines the published
+/// snapshot at every cut (every moment at which all three threads are parked or idle); only the
+/// monitor's findings are reported.
+pub fn sched_family_with_monitor(ctx: &Ctx, report: &mut Report, monitor: &dyn Fn(&Node) -> Vec<(String, String)>, replay: Option<&Value>) {
+    let cons = consensus(&WorldOpts::default());
+    set_time(time_for_height(12));
+    let mut u = match TreeUniverse::new(&ctx.scratch.join("forge-s"), &cons) {
+        Ok(u) => u,
+        Err(e) => {
+            report.machinery_errors.push(format!("forge boot: {e}"));
+            return;
+        }
+    };
+    if let Some(v) = replay {
+        let sc: SchedCase = serde_json::from_value(v["case"].clone()).expect("case");
+        let schedule: Vec<usize> = serde_json::from_value(v["schedule"].clone()).expect("schedule");
+        let keys = needed_keys(std::slice::from_ref(&sc.case));
+        if let Err(e) = u.build_all(&keys) {
+            report.machinery_errors.push(e);
+            return;
+        }
+        if let Err(e) = run_sched_case(ctx, &mut u, &sc, 0, report, Some(schedule), Some(monitor), Some("cut/")) {
+            report.machinery_errors.push(e);
+        }
+        return;
+    }
+    let keys = needed_keys(&sched_cases(ctx.tier).iter().map(|s| s.case.clone()).collect::<Vec<_>>());
+    if let Err(e) = u.build_all(&keys) {
+        report.machinery_errors.push(format!("universe: {e}"));
+        return;
+    }
+    run_sched(ctx, &mut u, report, Some(monitor), Some("cut/"));
 }
